@@ -1,5 +1,7 @@
 From Mds Require Import Common.ExtractBase Gen.EditIdx Slice.EditModel.
 Require Extraction.
 Require Import ExtrOcamlBasic.
-Extraction "edit_model.ml" EditModel.edit_script_run EditSpec.valid_script_gen EditSpec.valid_edits_gen
-  EditSpec.canonical EditSpec.alternating EditSpec.kept EditSpec.expand EditSpec.eq_lists EditLoop.op_code base_types.
+Extraction "edit_model.ml" EditModel.edit_script_run_cap EditModel.edit_script_run
+  EditSpec.valid_script_gen EditSpec.valid_edits_gen
+  EditSpec.canonical EditSpec.alternating EditSpec.kept EditSpec.cost EditSpec.expand EditSpec.eq_lists
+  EditLoop.op_code EditLoop.op_of_code base_types.
